@@ -12,7 +12,7 @@ for d in sorted(glob.glob(os.path.join(here, 'seeded/*/meta.json'))):
 per_round = {}
 for r in rows:
     per_round.setdefault(r[0], []).append(r)
-missed = [r for r in rows if 'MISSED' in r[5]]
+missed = [r for r in rows if "MISSED" in r[5] or "NOT DETECTED" in r[5]]
 out = ["\n### 11.6 Seeded changes produced by independent sub-agents\n\n"
 "Sub-agents were each given only the text of one to four properties and a scratch worktree of /repo (nothing from\n"
 "/verif; from round 2 on also the list of ideas already used, so that they would look elsewhere), and asked for changes\n"
@@ -24,9 +24,9 @@ out = ["\n### 11.6 Seeded changes produced by independent sub-agents\n\n"
 "through VERIF_REPO with evidence redirected; nothing is ever applied to /repo itself). `tools/seedall.sh` re-runs all.\n\n"]
 out.append("| round | changes | missed at first |\n|---|---|---|\n")
 for k in sorted(per_round):
-    out.append("| %d | %d | %d |\n" % (k, len(per_round[k]), len([r for r in per_round[k] if 'MISSED' in r[5]])))
+    out.append("| %d | %d | %d |\n" % (k, len(per_round[k]), len([r for r in per_round[k] if 'MISSED' in r[5] or 'NOT DETECTED' in r[5]])))
 out.append("| all | %d | %d |\n\n" % (len(rows), len(missed)))
-out.append("**All %d are detected by the quick tier now.** Every miss led to a wider workload or a stronger oracle, never to a\n"
+out.append("**All %d but one (r4-c12-filesonly-glob-memo, not judged on purpose) are detected by the quick tier now.** Every miss led to a wider workload or a stronger oracle, never to a\n"
 "special case for the change; after each strengthening the check was re-run on the unchanged tree (which several times\n"
 "exposed a mistake of the new workload itself, corrected before going on) and against the earlier seeds. The misses:\n\n"
 "| seeded change | property | needs to manifest | why it was missed / what was strengthened |\n|---|---|---|---|\n" % len(rows))
